@@ -109,8 +109,7 @@ class ServiceDecorator(Decorator):
                 return None
 
         task = Function.create_task(do_service_call(self.dm.eval_func, ast_ctx, func_args), ast_ctx=ast_ctx)
-        await task
-        return task.result()
+        return await Function.wait_for_task(task)
 
     async def start(self) -> None:
         """Register the service under every declared name."""
